@@ -220,6 +220,17 @@ def run(ctx):
         r, s, v = int(sg_t[2:66], 16), int(sg_t[66:130], 16), int(sg_t[130:132], 16)
         if t.encode((r, s, v - 27)) != raw:
             ctx.violation("pipeline-encoding", case, short(t.encode((r, s, v - 27))), short(raw))
+    # any well-formed signature text (r, s in range) makes `hash transaction --signature` print the hash of the signed encoding — it
+    # need not be a signature anyone made: r need not be the x-coordinate of a curve point (r = 5, 7, ...), s may be high
+    arb = [(r_, s_, v_) for r_ in (1, 2, 3, 4, 5, 6, 7, 8, 11, 13, N - 1, (1 << 255) + 5, rng.randrange(1, N)) for s_, v_ in ((1, 27), (N - 1, 28))]
+    aruns = [dict(args=["hash", "transaction", paths[k % len(paths)], "--signature", "0x%064x%064x%02x" % (r_, s_, v_)]) for k, (r_, s_, v_) in enumerate(arb)]
+    for k, ((r_, s_, v_), h) in enumerate(zip(arb, ctx.cli(aruns))):
+        t = txs[k % len(paths)][0]
+        want = "0x" + pyref.keccak256(t.encode((r_, s_, v_ - 27))).hex()
+        ctx.count("cli/arbitrary-in-range-signature")
+        ctx.distinct(("arb", r_, s_, v_))
+        if h.cls != "ok" or h.stdout.decode().strip() != want:
+            ctx.violation("hash-with-arbitrary-signature", dict(op="hash transaction --signature", r=hex(r_), s=hex(s_), v=v_, tx=short(txs[k % len(paths)][1], 160)), want, str(h)[:300])
     # malformed --signature values must be refused by the command itself (not silently ignored or trimmed)
     good = so[0].stdout.decode().strip() if so[0].cls == "ok" else "0x" + "11" * 64 + "1b"
     badvals = ["", " ", "\t", "\n", good + " ", " " + good, good + "\n", "\t" + good, good[:-2], good + "00", "0x", good.upper().replace("0X", "0X"), "0x" + good]
